@@ -204,6 +204,51 @@ twin('c15-solverarg-twin', 'C15', 't2thermo.py', "        def f(t): return sat(t
 
 bad('c17-avoid-caller', 'C17', 'AVOID', 'mulgrids.py', "        self.add_layers(thicknesses, top_elevation, justify, chars, spaces, atm_name)\n", "        self.add_layers(thicknesses, top_elevation, justify, chars, spaces)\n        self.rename_layer(self.layerlist[0].name, atm_name)\n")
 
+# ---- rules added after the fourth round of seeded changes (mutants differ from the seeds where possible) and twins from the
+# ---- second round of refactorings
+bad('c01-verbatim', 'C01', 'FMAP', 't2data.py', "        block, name = fix_blockname(block), fix_blockname(name)\n        time, rate, enthalpy = [], [], []", "        block, name = fix_blockname(block), fix_blockname(name)\n        gentype = gentype.rstrip()\n        time, rate, enthalpy = [], [], []")
+bad('c01-namefix-path', 'C01', 'NAMEFIX', 't2data.py', "            blockname = fix_blockname(blockname)\n            variables = infile.read_values('incon2')", "            if nseq is None: blockname = fix_blockname(blockname)\n            variables = infile.read_values('incon2')")
+bad('c01-endkw-attr', 'C01', 'ENDKW', 't2data.py', "t2data_sections + ['ENDCY', 'ENDFI']])", "t2data_sections + [self.end_keyword]])")
+twin('c01-endkw-twin', 'C01', 't2data.py', "t2data_sections + ['ENDCY', 'ENDFI']])", "t2data_sections + ['ENDFI'] + ['ENDCY']])")
+bad('c03-setter-early', 'C03', 'HEADER', 'mulgrids.py', "        \"\"\"Set naming convention\"\"\"\n        self._convention = convention\n        self.set_secondary_variables()", "        \"\"\"Set naming convention\"\"\"\n        changed = convention != self._convention\n        self._convention = convention\n        if changed: self.set_secondary_variables()")
+twin('c03-setter-twin', 'C03', 'mulgrids.py', "        \"\"\"Set naming convention\"\"\"\n        self._convention = convention\n        self.set_secondary_variables()\n        self.setup_block_name_index()", "        \"\"\"Set naming convention\"\"\"\n        self._convention = convention\n        self.set_secondary_variables()\n        if True: self.setup_block_name_index()")
+bad('c03-orderint', 'C03', 'HEADER', 'mulgrids.py', "        elif self.block_order is None:\n            self._block_order_int = None\n", "        elif self.block_order is None:\n            pass\n")
+bad('c04-indexorder', 'C04', 'INDEXORDER', 'mulgrids.py', "        for col in self.columnlist: self.set_column_num_layers(col)\n        self.setup_block_name_index()\n        self.setup_block_connection_name_index()", "        for col in self.columnlist: self.set_column_num_layers(col)\n        self.setup_block_connection_name_index()\n        self.setup_block_name_index()")
+bad('c04-laytops', 'C04', 'LAYTOPS', 'mulgrids.py', "        self.layerlist[0].top = self.layerlist[0].bottom\n        for i, this in enumerate(self.layerlist[1:]):", "        for i, this in enumerate(self.layerlist[1:]):")
+twin('c04-laytops-twin', 'C04', 'mulgrids.py', "        for i, this in enumerate(self.layerlist[1:]):\n            above = self.layerlist[i]\n            this.top = above.bottom", "        for above, this in zip(self.layerlist[:-1], self.layerlist[1:]):\n            this.top = above.bottom")
+bad('c11-laytops', 'C11', 'PART', 'mulgrids.py', "            above = self.layerlist[i]\n            this.top = above.bottom", "            above = self.layerlist[i + 1]\n            this.top = above.bottom")
+bad('c06-duprow', 'C06', 'DUPROW', 't2listing.py', "                rowdict[index] = (count,keyval)", "                if index not in rowdict: rowdict[index] = (count,keyval)")
+bad('c10-laycount-owner', 'C10', 'LAYCOUNT', 'mulgrids.py', "        for col in self.columnlist: self.set_column_num_layers(col)\n        self.setup_block_name_index()\n        self.setup_block_connection_name_index()\n\n", "        for col in geo.columnlist: self.set_column_num_layers(col)\n        self.setup_block_name_index()\n        self.setup_block_connection_name_index()\n\n")
+bad('c10-nbr-bulk', 'C10', 'NBRSYM', 'mulgrids.py', "                        col2.neighbour.add(c)\n                        c.neighbour.add(col2)\n", "                        pass\n                    col2.neighbour |= set(swapnbrs)\n")
+twin('c10-nbr-bulk-twin', 'C10', 'mulgrids.py', "                        col2.neighbour.add(c)\n                        c.neighbour.add(col2)\n", "                        c.neighbour.add(col2)\n                    col2.neighbour.update(swapnbrs)\n")
+bad('c11-index-helper', 'C11', 'DECOMP', 'mulgrids.py', "        return (i + d) % self.num_nodes", "        return (i + d) % (self.num_nodes - 1)")
+twin('c11-index-helper-twin', 'C11', 'mulgrids.py', "        result = i - d\n        if result < 0: result += self.num_nodes\n        return result", "        return (i - d) % self.num_nodes")
+bad('c12-wave', 'C12', 'DOM', 'mulgrids.py', "                if rectangles_intersect(nbr.bounding_box, self.bounds) and \\\n", "                if in_rectangle(pos, nbr.bounding_box) and \\\n")
+twin('c12-wave-twin', 'C12', 'mulgrids.py', "                if rectangles_intersect(nbr.bounding_box, self.bounds) and \\\n                   not ((nbr in done) or (nbr in todo)):", "                if not ((nbr in done) or (nbr in todo)):")
+bad('c13-namefix-path', 'C13', 'NAMEFIX', 't2incons.py', "                        blkname = fix_blockname(blkname)\n", "                        if check_blocknames: blkname = fix_blockname(blkname)\n")
+bad('c15-startdom', 'C15', 'STARTDOM', 't2thermo.py', "        if (0.01 <= t <= 500.0): # arbitrary upper limit in TOUGH2 implementation", "        if (0.01 <= t <= 374.5): # arbitrary upper limit in TOUGH2 implementation")
+twin('c15-startdom-twin', 'C15', 't2thermo.py', "        if (0.01 <= t <= 500.0): # arbitrary upper limit in TOUGH2 implementation", "        if (0.01 <= t <= 450.0): # arbitrary upper limit in TOUGH2 implementation")
+bad('c17-uniqlast', 'C17', 'UNIQLAST', 'mulgrids.py', "        chars = uniqstring(chars)\n        num = 0\n        self.clear_layers()", "        chars = uniqstring(chars)\n        chars = chars.lower()\n        num = 0\n        self.clear_layers()")
+bad('c17-namespace', 'C17', 'NAMESPACE', 'mulgrids.py', "        name, i = new_dict_key(self.node, istart, justfn, self.colname_length,", "        name, i = new_dict_key(self.column, istart, justfn, self.colname_length,")
+bad('c19-mutdefault', 'C19', 'MUTDEFAULT', 't2incons.py', "        if (colmapping == {}) or (mapping == {}):\n            mapping, colmapping = sourcegeo.block_mapping(geo, True)", "        if (colmapping == {}) or (mapping == {}):\n            mapping.update(sourcegeo.block_mapping(geo))\n            colmapping.update(sourcegeo.column_mapping(geo))")
+bad('c19-total-alias', 'C19', 'TOTAL', 'mulgrids.py', ["        layer_mapping = self.layer_mapping(geo)\n        for dest in geo.block_name_list:", "            if destlayer == geo.layerlist[0].name:\n"], ["        layer_mapping = self.layer_mapping(geo)\n        atmname = self.layerlist[0].name\n        for dest in geo.block_name_list:", "            if destlayer == atmname:\n"])
+bad('c20-simulfirst', 'C20', 'SIMULFIRST', 't2data.py', "            if listindex == 0: return 0  # SIMUL section\n            else:\n", "            if True:\n")
+twin('c20-simulfirst-twin', 'C20', 't2data.py', "            if listindex == 0: return 0  # SIMUL section\n", "            if section == 'SIMUL': return 0\n")
+bad('c20-eos-order', 'C20', 'EOSFLOW', 't2data.py', "                for eosname in supported_eos.keys():", "                for eosname in sorted(supported_eos.keys(), key = len, reverse = True):")
+twin('c20-eos-order-twin', 'C20', 't2data.py', "                for eosname in supported_eos.keys():", "                for eosname in sorted(supported_eos.keys(), key = len):")
+twin('c09-twin-genexp', 'C09', 't2grids.py', "        subvol = sum([blk.volume for blk in subgrid.blocklist])", "        subvol = sum(blk.volume for blk in subgrid.blocklist)")
+twin('c06-twin-ifexp', 'C06', 't2listing.py', "                                sgn = [1.,-1.][reverse]", "                                sgn = -1. if reverse else 1.")
+twin('c16-twin-dict', 'C16', 'fixed_format_file.py', "    result = {'s': strfn, 'x': spacefn, 'd': intfn}\n    for typ in ['f','e','g']: result[typ] = floatfn\n    return result", "    return {'s': strfn, 'x': spacefn, 'd': intfn, 'f': floatfn, 'e': floatfn, 'g': floatfn}")
+twin('c14-twin-table', 'C14', 'IAPWS97.py', "        if t <= 350.:\n            return 1 if p > sat(t) else 2\n        elif t <= 590.:\n            return 3 if p > b23p(t) else 2\n        else: return 2", "        for tmax, dense, pb in ((350., 1, sat), (590., 3, b23p)):\n            if t <= tmax:\n                return dense if p > pb(t) else 2\n        return 2")
+
+bad('c11-consumer-sign', 'C11', 'DISPATCH', 'mulgrids.py', "n = col.node[(istart + vert) % nn]", "n = col.node[(istart - vert) % nn]")
+bad('c11-consumer-sides', 'C11', 'DISPATCH', 'mulgrids.py', "                        refined_sides.append(i)", "                        refined_sides.insert(0, i)")
+bad('c11-consumer-key', 'C11', 'DISPATCH', 'mulgrids.py', "for subcol in transition_column[nn][nrefined, irange]:", "for subcol in transition_column[nn][nrefined, istart]:")
+twin('c11-consumer-twin', 'C11', 'mulgrids.py', "                        if isinstance(vert, int): n = col.node[(istart + vert) % nn]\n                        elif vert == 'c': n = centrenodes[col.name]", "                        if vert == 'c': n = centrenodes[col.name]\n                        elif isinstance(vert, int): n = col.node[(vert + istart) % nn]")
+
+bad('c03-justtest', 'C03', 'JUSTTEST', 'mulgrids.py', "blkname[0:3] == blkname[0:3].strip().rjust(3)", "blkname[0:3] == blkname[0:3].rjust(3)")
+twin('c03-justtest-twin', 'C03', 'mulgrids.py', "blkname[0:3] == blkname[0:3].strip().rjust(3)", "blkname[:3].strip().rjust(3) == blkname[:3]")
+
 
 def _run_one(entry):
     i, pid, rule, kind, fname, old, new = entry
